@@ -1297,6 +1297,125 @@ func LeaveVsPublishBody(kind string, abrupt bool, n int) func(x *vrt.Exec) {
 	}
 }
 
+// ReplaceVsAttachBody: a second publisher takes the path over (RECORD) at the very moment a
+// player starts playing. The player ends up on exactly one of the two streams and receives that
+// publisher's packets only; when the old publisher leaves, a player on the old stream is
+// disconnected and a player on the new one is not disturbed; nothing is left at the end.
+func ReplaceVsAttachBody() func(x *vrt.Exec) {
+	return func(x *vrt.Exec) {
+		vrt.Quiet(true)
+		w := newWorld(x)
+		if w == nil {
+			return
+		}
+		w.apply("pub", false)
+		// the second publisher, up to (not including) RECORD
+		p2 := hs.NewTCP("pusher2")
+		vrt.WhenIdle()
+		var hsk []string
+		_, it := p2.Do("ANNOUNCE", pushURL, map[string]string{"Content-Type": "application/sdp"}, hx.SdpH264AAC)
+		hsk = append(hsk, codes(it))
+		for track := 0; track < 2; track++ {
+			_, it = p2.Do("SETUP", fmt.Sprintf("%s/streamid=%d", pushURL, track), map[string]string{"Transport": fmt.Sprintf("RTP/AVP/TCP;unicast;interleaved=%d-%d;mode=record", 2*track, 2*track+1)}, "")
+			hsk = append(hsk, codes(it))
+		}
+		if strings.Join(hsk, " ") != "200 200 200" {
+			x.Failf("release second-publisher-refused", "%v", hsk)
+			return
+		}
+		p := w.players["tcp"]
+		p.attachUpTo(x, false)
+		old := media.Get("/live/p")
+		vrt.Quiet(false)
+		recDone := false
+		vrt.GoNamed("replacer", func() {
+			p2.Send("RECORD", pushURL, nil, "")
+			recDone = true
+		})
+		p.sendPlay()
+		vrt.Point("join-replacer", &recDone, func() bool { return recDone })
+		vrt.WhenIdle()
+		vrt.Quiet(true)
+		if c := codes(p2.Drain()); c != "200" {
+			x.Failf("release second-publisher-refused", "RECORD answered [%s]", c)
+			return
+		}
+		playAnswer := codes(p.tcp.Drain())
+		// 200, or a refusal when the lookup saw the stream that was just being retired (the property
+		// allows a lookup to find nothing; it must never hand out a closed stream)
+		if playAnswer != "200" && playAnswer != "404" {
+			x.Failf("release play-answer-during-replacement", "PLAY answered [%s]", playAnswer)
+			return
+		}
+		now := media.Get("/live/p")
+		if now == nil || now == old {
+			x.Failf("release successor-stream-lost", "after the second RECORD the path resolves to old=%v nil=%v", now == old, now == nil)
+		}
+		// one packet from each publisher, distinguishable by content
+		oldPkt := hx.Pkt(0, 96, true, 900, 900000, rtppack.H264Single(hx.NAL(3, 1, 20, 0xA0))).Data
+		newPkt := hx.Pkt(0, 96, true, 901, 900000, rtppack.H264Single(hx.NAL(3, 1, 21, 0xB0))).Data
+		w.pusher.SendRaw(frame(0, oldPkt))
+		vrt.WhenIdle()
+		p2.SendRaw(frame(0, newPkt))
+		vrt.WhenIdle()
+		p.tcp.Drain()
+		gotOld, gotNew := 0, 0
+		for _, f := range hs.Frames(p.tcp.Items) {
+			if bytes.Equal(f.Payload, oldPkt) {
+				gotOld++
+			}
+			if bytes.Equal(f.Payload, newPkt) {
+				gotNew++
+			}
+		}
+		x.Observe("play=%s old=%d new=%d closed=%v", playAnswer, gotOld, gotNew, p.tcp.Srv.IsClosed())
+		switch {
+		case gotOld+gotNew > 1:
+			x.Failf("release player-on-both-streams", "after PLAY || RECORD the player received %d packets of the old publisher and %d of the new one", gotOld, gotNew)
+		case gotOld+gotNew == 0 && playAnswer == "200" && !p.tcp.Srv.IsClosed():
+			// it attached to the stream that was being retired at that very moment: it must have been disconnected
+			x.Failf("release attaching-player-not-disconnected tcp cause=replaced", "PLAY was answered 200, the player receives from neither publisher and is still connected")
+		case playAnswer != "200" && gotOld+gotNew > 0:
+			x.Failf("release refused-player-receives-media", "PLAY answered %s but media arrived", playAnswer)
+		}
+		// the old publisher leaves
+		w.pusher.Conn.Close()
+		vrt.WhenIdle()
+		if gotOld == 1 && !p.tcp.Srv.IsClosed() {
+			x.Failf("release player-not-disconnected tcp cause=replaced-then-old-publisher-leaves", "the player was on the replaced stream, whose publisher left, and is still connected")
+		}
+		if gotNew == 1 {
+			if p.tcp.Srv.IsClosed() {
+				x.Failf("release other-player-disconnected tcp", "the player was on the new stream and was disconnected when the old publisher left")
+			}
+			newPkt2 := hx.Pkt(0, 96, true, 902, 990000, rtppack.H264Single(hx.NAL(3, 1, 22, 0xB1))).Data
+			p2.SendRaw(frame(0, newPkt2))
+			vrt.WhenIdle()
+			p.tcp.Drain()
+			seen := false
+			for _, f := range hs.Frames(p.tcp.Items) {
+				if bytes.Equal(f.Payload, newPkt2) {
+					seen = true
+				}
+			}
+			if !seen {
+				x.Failf("release player-on-new-stream-starved", "the player on the new stream no longer receives after the old publisher left")
+			}
+		}
+		if media.Get("/live/p") != now {
+			x.Failf("release successor-stream-lost", "the new publisher's stream is no longer the registered one after the old publisher left")
+		}
+		p2.Conn.Close()
+		vrt.WhenIdle()
+		w.closeAllClients()
+		if media.Get("/live/p") != nil {
+			x.Failf("release stream-left-registered-at-end", "")
+		}
+		w.checkCounters("release-at-end replace-race", "replaced", "PLAY || second RECORD", 0, 0, 0)
+		stuck(x, "release-at-end replace-race")
+	}
+}
+
 // FanoutScenarios are C01's.
 func FanoutScenarios(thorough bool) []runner.Scenario {
 	steps, e, sh, mcP, joinN := 6, 3, 8, 2, 3
@@ -1335,13 +1454,14 @@ func ReleaseScenarios(thorough bool) []runner.Scenario {
 	if thorough {
 		steps, e, sh = 6, 5, 16
 	}
-	out := []runner.Scenario{
-		{Name: fmt.Sprintf("transport-release-steps%d", steps), Body: ReleaseBody(steps), P: 0, E: e, Shards: sh, Horizon: 400000, NoFine: true},
-	}
 	p := 2
 	if thorough {
 		p = 3
 	}
+	out := []runner.Scenario{
+		{Name: fmt.Sprintf("transport-release-steps%d", steps), Body: ReleaseBody(steps), P: 0, E: e, Shards: sh, Horizon: 400000, NoFine: true},
+	}
+	out = append(out, runner.Scenario{Name: "replacement-vs-attach-tcp", Body: ReplaceVsAttachBody(), P: p, Shards: sh, Horizon: 400000, NoFine: true})
 	for _, k := range []string{"udp", "mc1"} {
 		out = append(out, runner.Scenario{Name: "udp-socket-unavailable-" + k, Body: UDPUnavailableBody(k), P: 0, Horizon: 400000, NoFine: true})
 	}
